@@ -24,7 +24,7 @@ SHAPES = {
                       {'token': 'あ', 'cands': [[], ['N', 'V']], 'char': [], 'type': []}]},
 }
 BOUNDS = {
-    'quick': {'model shapes': sorted(SHAPES) + ['12 random structurally valid shapes drawn from VERIF_SEED'], 'weights': 'symbolic i16 weights, symbolic bias', 'trailing bytes': '0..2 symbolic bytes',
+    'quick': {'model shapes': sorted(SHAPES) + ['48 random structurally valid shapes drawn from VERIF_SEED (windows 1..4)'], 'weights': 'symbolic i16 weights, symbolic bias', 'trailing bytes': '0..2 symbolic bytes',
               'truncation': 'every cut point of the serialised stream at header-byte and token granularity (incl. lengths 0..24, shorter than the header)',
               'header': '25 symbolic header bytes', 'faults': 'reader/writer failing at its k-th call, every k'},
     'thorough': {'model shapes': sorted(SHAPES) + ['240 random structurally valid shapes drawn from VERIF_SEED (windows 1..5, up to 3 char / 2 type n-grams, 2 dictionary words, 2 tag models)'],
@@ -46,8 +46,8 @@ def shapes(tier, seed):
     sh = dict(SHAPES)
     import random
     rnd = random.Random(seed * 131 + 7)
-    for k in range(12 if tier == 'quick' else 240):
-        sh['random%03d' % k] = P.random_shape(rnd, max_w=3 if tier == 'quick' else 5)
+    for k in range(48 if tier == 'quick' else 240):
+        sh['random%03d' % k] = P.random_shape(rnd, max_w=4 if tier == 'quick' else 5)
     return sh
 
 
